@@ -15,20 +15,38 @@ def outStr (o : Out) : String :=
 def parseInts (s : String) : Option (List Int) :=
   if s = "-" then some [] else (s.splitOn ",").mapM (fun w => w.toInt?)
 
-def parseOps (s : String) : Option (List Op) :=
-  s.toList.mapM (fun c => if c = 'c' then some Op.can else if c = 's' then some Op.succ else if c = 'f' then some Op.fail else none)
+/-- Call alphabet of the harness. `c` = `CanRequest()`, `s` = `OnSuccess()`, `f` = `OnFailure()`; `x`, `y`, `z` =
+`Execute(ctx, fn)` with three kinds of delegate, which asks the model the same question as `CanRequest()` (the harness answers
+`T` iff the delegate ran, `F` iff it did not and the error is `ErrFailFast`); `n` = `Execute(ctx, nil)`, which has no model
+step (`none`): the code returns before it looks at the breaker, the answer line shows `-[]` for it. -/
+def parseOps (s : String) : Option (List (Option Op)) :=
+  s.toList.mapM (fun c =>
+    if c = 'c' || c = 'x' || c = 'y' || c = 'z' then some (some Op.can)
+    else if c = 's' then some (some Op.succ)
+    else if c = 'f' then some (some Op.fail)
+    else if c = 'n' then some none
+    else none)
 
-/-- `brk thrbits minReq trial open window interval k ops <csf…> ticks <t,…>` -/
+/-- answers of the model's calls, with `-[]` at the positions of the calls that have no model step -/
+def interleaveOuts : List (Option Op) → List Out → List String
+  | [], _ => []
+  | none :: ops, outs => "-[]" :: interleaveOuts ops outs
+  | some _ :: ops, o :: outs => outStr o :: interleaveOuts ops outs
+  | some _ :: _, [] => []
+
+/-- `brk thrbits minReq trial open window interval k ops <csfxyzn…> ticks <t,…> [env <glue>]`; the optional `env` token
+describes harness-side glue the model has no notion of (erroring listeners, a logger, a breaker name) and is ignored. -/
 def handleBrk (toks : List String) : String :=
   match toks with
-  | [thr, mr, tr, op, w, iv, k, "ops", ops, "ticks", ticks] =>
+  | thr :: mr :: tr :: op :: w :: iv :: k :: "ops" :: ops :: "ticks" :: ticks :: rest =>
+    if !(rest.isEmpty || (rest.length == 2 && rest.head? == some "env")) then "bad-op" else
     match f64? thr, mr.toInt?, tr.toInt?, op.toInt?, w.toInt?, iv.toInt?, k.toNat?, parseOps ops, parseInts ticks with
     | some thr, some mr, some tr, some op, some w, some iv, some k, some ops, some ticks =>
       let cfg : Config := { thr := thr, minReq := mr, trial := tr, openW := op, window := w, interval := iv, listeners := k }
       let (st0, ts0, cbs0) := create cfg ticks
-      let (outs, _, tsEnd) := runOps cfg st0 ts0 ops
+      let (outs, _, tsEnd) := runOps cfg st0 ts0 (ops.filterMap id)
       let used := ticks.length - tsEnd.length
-      s!"{used} [{String.intercalate "," (cbs0.map cbStr)}] " ++ String.intercalate ";" (outs.map outStr)
+      s!"{used} [{String.intercalate "," (cbs0.map cbStr)}] " ++ String.intercalate ";" (interleaveOuts ops outs)
     | _, _, _, _, _, _, _, _, _ => "bad-op"
   | _ => "bad-op"
 
